@@ -241,6 +241,10 @@ def variants(rng, inst, cover):
         vals = [v for v in vals if v > 0]
         ws = [rng.choice(vals) for _ in range(rng.randint(cover, cover + 1))]
         out.append(dict(inst, given_weights=[qstr(v) for v in ws], k=rng.randint(cover, len(ws))))
+        if inst["weight_type"] == "int" and rng.random() < 0.6:
+            # both at once: given weights AND length-scaled slacks (the given-weights encoding has its own product rows)
+            out.append(dict(inst, given_weights=[qstr(v) for v in ws], k=rng.randint(cover, len(ws)),
+                            path_length_ranges=[[0, 1000]], path_length_factors=[rng.choice(FACTORS)]))
     return out
 
 
